@@ -17,6 +17,7 @@ mod c13;
 mod c12;
 mod c06;
 mod c07;
+mod c20r;
 
 use common::Case;
 use std::fs;
@@ -35,6 +36,7 @@ fn header(prop: &str) -> &'static str {
         "C12" => "From TSG Require Import Model.HashOrder.\n",
         "C06" => "From TSG Require Import Model.Checker.\n",
         "C07" | "C05p" => "From TSG Require Import Model.ParserObs.\n",
+        "C20r" => "From TSG Require Import Model.ErrRender.\n",
         _ => "",
     }
 }
@@ -81,6 +83,7 @@ fn main() {
                 "C11" => streams::c11_gen(&mut rng, n),
                 "C15" => streams::c15_gen(&mut rng, n),
                 "C20" => streams::c20_gen(&mut rng, n),
+                "C20r" => c20r::gen(&mut rng, n),
                 "C02" => streams::c02_gen(&mut rng, n),
                 "C08" => streams::c08_gen(&mut rng, n),
                 "C05x" => streams::c05x_gen(&mut rng, n),
@@ -112,6 +115,7 @@ fn main() {
                 "C11" => streams::c11_replay(&j["case"]),
                 "C15" => streams::c15_replay(&j["case"]),
                 "C20" => streams::c20_replay(&j["case"]),
+                "C20r" => c20r::replay(&j["case"]),
                 "C02" => streams::c02_replay(&j["case"]),
                 "C08" => streams::c08_replay(&j["case"]),
                 "C05x" => streams::c05x_replay(&j["case"]),
